@@ -87,6 +87,7 @@ fn plan(prop: &str, o: &mut Out) {
             }
             g_mutations(o, &all);
             g_targeted_invalid(o);
+            g_nonascii_chars(o, &["b32", "dyn", "big"]);
         }
         "C07" => {
             g_grid(o, &["dyn", "big"]);
